@@ -62,7 +62,28 @@ type call struct {
 	ots     []ST   // scalar operand types (kinds Mon..ParF)
 	elem    gen.ElemType
 	storage string
-	order   int // >0: Real operands are activated as variables of this order
+	order   int    // >0: Real operands are activated as variables of this order
+	scratch string // fresh | stale | reused: state of the receiver and of the scratch arguments before the judged call
+}
+
+func (c *call) hasScratch() bool {
+	return c.op.Kind == DyT || c.op.Kind == MonT || c.op.Kind == RedSM
+}
+
+// stale gives a scalar left-over content: a value and, for Real types, a derivative shape of another computation.
+func stale(t ST, k int) ad.Scalar {
+	x := t.New(t.Held(float64(3 + 2*k)))
+	if m, ok := x.(ad.MagicScalar); ok {
+		n, o := 2+k%2, 1+k%2
+		m.Alloc(n, o)
+		for i := 0; i < n; i++ {
+			m.SetDerivative(i, float64(i)+0.5)
+			for j := 0; j < n && o >= 2; j++ {
+				m.SetHessian(i, j, float64(i*j)-1.5)
+			}
+		}
+	}
+	return x
 }
 
 func (c *call) isReduce() bool { return c.op.Kind >= RedV }
@@ -88,6 +109,9 @@ func (c *call) describe() map[string]any {
 	}
 	if c.order > 0 {
 		d["order"] = c.order
+	}
+	if c.scratch != "" && c.scratch != "fresh" {
+		d["scratch"] = c.scratch
 	}
 	return d
 }
@@ -183,7 +207,16 @@ func buildMatrix(t gen.ElemType, storage string, xs []float64, rows, cols int) a
 func (c *call) run(rt ST) (f float64, i int64, p *fw.Panic) {
 	r := rt.New(rt.Held(1)) // stale non-zero content in the receiver
 	tmp := []ad.Scalar{rt.New(0), rt.New(0), rt.New(0)}
-	p = fw.Call(func() {
+	times := 1
+	switch c.scratch {
+	case "stale":
+		r = stale(rt, 3)
+		tmp = []ad.Scalar{stale(rt, 0), stale(rt, 1), stale(rt, 2)}
+	case "reused":
+		// the same receiver and scratch array serve two consecutive calls; the second one is judged
+		times = 2
+	}
+	body := func() {
 		if c.isReduce() {
 			var v, w ad.ConstVector
 			var m ad.ConstMatrix
@@ -219,6 +252,11 @@ func (c *call) run(rt ST) (f float64, i int64, p *fw.Panic) {
 			ad.Variables(c.order, reals...)
 		}
 		ApplyScalar(c.op, r, xs, c.args.Par, c.args.K, tmp[0])
+	}
+	p = fw.Call(func() {
+		for k := 0; k < times; k++ {
+			body()
+		}
 	})
 	if p != nil {
 		return 0, 0, p
@@ -237,6 +275,16 @@ func intsOf(xs []float64) []int64 {
 // execute runs the call on every receiver type in recvs, judges the integer
 // ring operations in-process and writes one data event for the oracle.
 func (c *call) execute(cs *fw.Case, recvs []ST) {
+	if c.cls != "special" && c.cls != "directed" {
+		// receiver / scratch arguments: fresh, with stale content, or reused from a first call (drawn after the operands)
+		c.scratch = []string{"fresh", "stale", "reused"}[cs.R.Intn(3)]
+	} else {
+		c.scratch = []string{"fresh", "stale", "reused"}[cs.Index%3]
+	}
+	cs.Cover("scratch:" + c.scratch)
+	if c.hasScratch() {
+		cs.Cover("scratch-op:" + c.op.Name + "/" + c.scratch)
+	}
 	res := map[string]string{}
 	witness := c.describe()
 	for _, rt := range recvs {
@@ -657,6 +705,15 @@ func extremeInt(r *prng.Rand, t, rt ST) int64 {
 	lo, hi := intLimits(t)
 	rlo, rhi := intLimits(rt)
 	var v int64
+	if t.Bits == 64 && r.Chance(0.3) {
+		// 64-bit values that float64 cannot tell apart: +-(2^53 + k), +-(2^62 + k), k small
+		base := []int64{1 << 53, 1 << 62, 1<<53 + 1<<30, 3 << 60}[r.Intn(4)]
+		v = base + int64(r.Range(-3, 3))
+		if r.Bool() {
+			v = -v
+		}
+		return v
+	}
 	switch r.Intn(6) {
 	case 0:
 		v = rhi - int64(r.Intn(4))
@@ -695,8 +752,35 @@ func intWrapCase(cs *fw.Case) {
 	rt := IntRecv[(cs.Index/len(ringOps))%len(IntRecv)]
 	ta, tb := its[r.Intn(len(its))], its[r.Intn(len(its))]
 	a, b := extremeInt(r, ta, rt), extremeInt(r, tb, rt)
+	if r.Chance(0.3) {
+		// second operand next to the first one (they may differ only below the resolution of float64)
+		lo, hi := intLimits(tb)
+		if d := int64(r.Range(-2, 2)); (d >= 0 && a <= hi-d && a >= lo) || (d < 0 && a >= lo-d && a <= hi) {
+			b = a + d
+		}
+	}
 	if opn == "Div" && r.Chance(0.2) {
 		b = 0
+	}
+	// a float-family operand with a fractional value: the receiver sees it truncated towards zero (Go conversion)
+	fracB, fb := false, 0.0
+	if opn != "Neg" && opn != "Abs" && r.Chance(0.2) {
+		tb = FloatFam[r.Intn(len(FloatFam))]
+		k := r.Range(-100, 100)
+		fb = float64(k) + r.PickF([]float64{0.5, 0.25, 0.75, -0.5, -0.25, -0.75})
+		b = int64(fb) // truncation
+		if opn == "Div" && b == 0 {
+			fb, b = 2.5, 2
+		}
+		fracB = true
+		a = wrapInt(rt.Bits, a)
+		if r.Bool() {
+			a = b + int64(r.Range(-1, 1))
+		}
+		alo, ahi := intLimits(ta)
+		if a < alo || a > ahi {
+			a = b
+		}
 	}
 	if opn == "Abs" {
 		// |x| of an operand that does not fit the receiver is not defined by the property: keep it in range
@@ -704,12 +788,19 @@ func intWrapCase(cs *fw.Case) {
 		ta = TypeByName(rt.Name)
 	}
 	recv := rt.New(1)
-	xs := []ad.ConstScalar{makeInt(ta, a), makeInt(tb, b)}
+	xs := []ad.ConstScalar{makeInt(ta, a), nil}
+	if fracB {
+		xs[1] = tb.Make(fb)
+	} else {
+		xs[1] = makeInt(tb, b)
+	}
 	p := fw.Call(func() { ApplyScalar(op, recv, xs, 0, 0, nil) })
 	want, wantPanic := refRing(rt.Name, opn, a, b)
 	rlo, rhi := intLimits(rt)
 	label := "in-range"
 	switch {
+	case fracB:
+		label = "fractional-float-operand"
 	case opn == "Div" && wantPanic:
 		label = "zero-divisor"
 	case a < rlo || a > rhi || (op.Kind == Dy && (b < rlo || b > rhi)):
@@ -740,6 +831,9 @@ func intWrapCase(cs *fw.Case) {
 	cs.Cover("intwrap:" + label)
 	cs.Cover("optype:" + ta.Name)
 	witness := map[string]any{"op": opn, "recv": rt.Name, "ot": []string{ta.Name, tb.Name}, "a": a, "b": b}
+	if fracB {
+		witness["b_as_float"] = fb
+	}
 	got := recv.GetInt64()
 	switch {
 	case wantPanic && p == nil:
@@ -788,24 +882,85 @@ func predCase(cs *fw.Case) {
 		a, b = math.Trunc(a/8), math.Trunc(b/8)
 	}
 	eps := r.PickF([]float64{1e-12, 0.3, 1.3, 2.7, 50.3})
-	if rt.Int && tb.Int && r.Chance(0.25) {
-		// operand outside the receiver's range: compared as represented in the receiver's type
-		ai, bi := int64(a), extremeInt(r, tb, rt)
-		x, y := makeInt(rt, ai), makeInt(tb, bi)
+	judgeInt := func(label string, x, y ad.ConstScalar, ai, bi int64, wit map[string]any) {
+		// Greater / Smaller / Sign in the receiver's integer type (bi = the operand as the receiver's getter converts it)
 		var gr, sm bool
-		if p := fw.Call(func() { gr, sm = x.Greater(y), x.Smaller(y) }); p != nil {
-			cs.Violation(fmt.Sprintf("C02|pred|compare|recv=%s|operand-wraps|panic", rt.Name), p.Msg+" "+p.Frame,
-				map[string]any{"recv": rt.Name, "ot": tb.Name, "a": ai, "b": bi})
+		var sg int
+		if p := fw.Call(func() { gr, sm, sg = x.Greater(y), x.Smaller(y), x.Sign() }); p != nil {
+			cs.Violation(fmt.Sprintf("C02|pred|compare|recv=%s|%s|panic", rt.Name, label), p.Msg+" "+p.Frame, wit)
 			return
 		}
-		wg, ws, _ := refCmp(rt.Name, ai, bi)
-		cs.Cover("pred:operand-wraps")
-		if gr != wg || sm != ws {
-			cs.Violation(fmt.Sprintf("C02|pred|Greater/Smaller|recv=%s|operand-wraps|value", rt.Name),
-				fmt.Sprintf("%s(%d) vs %s(%d): Greater=%v Smaller=%v, order in the receiver's type says %v %v", rt.Name, ai, tb.Name, bi, gr, sm, wg, ws),
-				map[string]any{"recv": rt.Name, "ot": tb.Name, "a": ai, "b": bi})
+		wg, ws, wsg := refCmp(rt.Name, ai, bi)
+		cs.Cover("pred:" + label)
+		for _, c := range []struct {
+			name      string
+			got, want any
+		}{{"Greater", gr, wg}, {"Smaller", sm, ws}, {"Sign", sg, wsg}} {
+			cs.Cover("op:" + c.name + "/" + rt.Name)
+			if c.got != c.want {
+				cs.Violation(fmt.Sprintf("C02|pred|%s|recv=%s|%s|value", c.name, rt.Name, label),
+					fmt.Sprintf("%s(%d).%s(%s %v) = %v, the order of the operands as represented in the receiver's type says %v", rt.Name, ai, c.name, tb.Name, wit["b"], c.got, c.want), wit)
+			}
 		}
-		cs.Nontrivial(rt.Name, tb.Name, ai, bi)
+		cs.Cover("optype:" + tb.Name)
+		cs.Nontrivial(label, rt.Name, tb.Name, ai, fmt.Sprint(wit["b"]))
+	}
+	if rt.Int && tb.Int && r.Chance(0.4) {
+		// extreme operands: type bounds, +-2^53+-k, 2^62.., neighbours that float64 cannot tell apart, operands outside the receiver's range
+		ai := int64(a)
+		if r.Bool() {
+			ai = extremeInt(r, rt, rt)
+		}
+		bi := extremeInt(r, tb, rt)
+		if r.Chance(0.4) {
+			lo, hi := intLimits(tb)
+			if d := int64(r.Range(-2, 2)); (d >= 0 && ai <= hi-d && ai >= lo) || (d < 0 && ai >= lo-d && ai <= hi) {
+				bi = ai + d
+			}
+		}
+		rlo, rhi := intLimits(rt)
+		label := "extreme-operands"
+		if bi < rlo || bi > rhi {
+			label = "operand-wraps"
+		}
+		judgeInt(label, makeInt(rt, ai), makeInt(tb, bi), ai, bi, map[string]any{"recv": rt.Name, "ot": tb.Name, "a": ai, "b": bi})
+		return
+	}
+	if rt.Int && !tb.Int && r.Chance(0.4) {
+		// fractional float operand: an integer receiver sees it truncated towards zero
+		fb := float64(r.Range(-100, 100)) + r.PickF([]float64{0.5, 0.25, 0.75, -0.5, -0.25, -0.75})
+		bi := int64(fb)
+		ai := bi + int64(r.Range(-1, 1))
+		judgeInt("fractional-float-operand", makeInt(rt, ai), tb.Make(fb), ai, bi, map[string]any{"recv": rt.Name, "ot": tb.Name, "a": ai, "b": fb})
+		return
+	}
+	if !rt.Int && tb.Int && tb.Bits == 64 && r.Chance(0.4) {
+		// 64-bit integer operand beyond 2^53 seen by a float receiver: compared after Go's conversion to the receiver's float type
+		bi := extremeInt(r, tb, tb)
+		var fa, fbv float64
+		if rt.Bits == 32 {
+			fbv = float64(float32(bi))
+			fa = float64(math.Nextafter32(float32(fbv), float32(math.Inf(r.Range(0, 1)*2-1))))
+		} else {
+			fbv = float64(bi)
+			fa = math.Nextafter(fbv, math.Inf(r.Range(0, 1)*2-1))
+		}
+		if r.Chance(0.4) {
+			fa = fbv
+		}
+		x, y := rt.Make(fa), makeInt(tb, bi)
+		var gr, sm bool
+		wit := map[string]any{"recv": rt.Name, "ot": tb.Name, "a": Hex(fa), "b": bi}
+		if p := fw.Call(func() { gr, sm = x.Greater(y), x.Smaller(y) }); p != nil {
+			cs.Violation(fmt.Sprintf("C02|pred|compare|recv=%s|int64-operand-beyond-2^53|panic", rt.Name), p.Msg+" "+p.Frame, wit)
+			return
+		}
+		cs.Cover("pred:int64-operand-beyond-2^53")
+		if gr != (fa > fbv) || sm != (fa < fbv) {
+			cs.Violation(fmt.Sprintf("C02|pred|Greater/Smaller|recv=%s|int64-operand-beyond-2^53|value", rt.Name),
+				fmt.Sprintf("%s(%v) vs %s(%d): Greater=%v Smaller=%v, the operand converted to the receiver's float type is %v", rt.Name, fa, tb.Name, bi, gr, sm, fbv), wit)
+		}
+		cs.Nontrivial("beyond", rt.Name, tb.Name, fa, bi)
 		return
 	}
 	x, y := rt.Make(a), tb.Make(b)
